@@ -534,6 +534,45 @@ def clause7_scanners(ctx, P):
            "one of them mishandles a token boundary (e.g. the last of several offered sub-protocols)" % diff)
 
 
+def clause7b_list_tokens(ctx, P):
+    """Sec-WebSocket-Protocol and Sec-WebSocket-Extensions are comma separated lists (1#token): optional white space is allowed on BOTH
+    sides of a comma ("jet , chat").  In each list scanner, every pointer whose byte is compared with ',' to find where an element
+    ends is also looked at for white space - or the element's length is cut back while its last byte is white space (a white-space
+    test on a computed address, start + length - 1 / end[-1])"""
+    SPACE = 8192   # _ISspace in the ctype table
+
+    def ptr_of(t):
+        return t[1] if t[0] == "load" else None
+    for key in ("websocket.c:check_websocket_protocol", "websocket.c:check_websocket_extensions"):
+        f = P.fn(key)
+        commas, spaces, trims = set(), set(), 0
+        for i in f.all_insts():
+            if i.op == "icmp" and len(i.a) == 2:
+                k = P.const_int(i.a[1])
+                pt = ptr_of(P.term(f, i.a[0]))
+                if pt is None:
+                    continue
+                if k == 44:
+                    commas.add(pt)
+                elif k in (32, 9):
+                    if pt[0] == "phi":
+                        spaces.add(pt)
+                    else:
+                        trims += 1
+            elif i.op == "and" and P.const_int(i.a[1]) == SPACE:
+                for y in Q.subterms(P.term(f, i.a[0])):
+                    if y[0] == "load" and y[1][0] in ("phi", "index", "byteoff", "container_of") and not Q.mentions(y, lambda z: Q.is_call_to(z, "__ctype_b_loc")):
+                        if y[1][0] == "phi":
+                            spaces.add(y[1])
+                        else:
+                            trims += 1
+        missing = sorted(fmt_term(c) for c in commas if c not in spaces)
+        ctx.ob("C12.5 R-SIB", f, "list-elements-end-at-white-space-too", bool(commas) and (not missing or trims > 0),
+               "%s() finds the end of a list element by looking for ',' only (pointer %s is never tested for white space, and the length "
+               "is not cut back either): \"jet , chat\" yields the element \"jet \" and a valid offer of the sub-protocol is answered "
+               "with 400" % (f.srcname, ", ".join(missing)))
+
+
 def clause8_status_codes(ctx, P):
     """is_status_code_invalid against the close codes RFC 6455 7.4 allows an endpoint to send"""
     from ..core.feval import FEval
@@ -742,6 +781,7 @@ def run(ctx):
         clause5_handshake(ctx, P, cg)
         clause6_transparency(ctx, P, cg)
         clause7_scanners(ctx, P)
+        clause7b_list_tokens(ctx, P)
         clause8_status_codes(ctx, P)
         clause8_frame_flags(ctx, P, cg)
         clause9_misc(ctx, P, cg)
